@@ -237,6 +237,108 @@ pub fn naive_bpe_word(word: &[u8], table: &HashMap<Vec<u8>, u32>) -> (Vec<u32>, 
     (toks.into_iter().map(|t| t.1).collect(), trace)
 }
 
+/// The same specification as `naive_bpe_word`, implemented for long words (tens of kilobytes):
+/// tokens are byte ranges in a doubly linked list, candidates (merge id, start of the left token)
+/// live in an ordered set, and only the neighbourhood of a merge is re-examined. `self_test_bpe`
+/// compares it with the rescanning version on generated words.
+pub fn fast_bpe_word(word: &[u8], table: &HashMap<Vec<u8>, u32>) -> Vec<u32> {
+    use std::collections::BTreeSet;
+    let n = word.len();
+    if n == 0 {
+        return vec![];
+    }
+    // node i = token starting at byte i (alive[i]); end[i] = exclusive end; prev/next = starts
+    let mut end: Vec<usize> = (1..=n).collect();
+    let mut prev: Vec<usize> = (0..n).map(|i| i.wrapping_sub(1)).collect();
+    let mut alive = vec![true; n];
+    let none = usize::MAX;
+    prev[0] = none;
+    let next_of = |end: &Vec<usize>, i: usize| -> usize { if end[i] < n { end[i] } else { none } };
+    let mut cand: BTreeSet<(u32, usize)> = BTreeSet::new();
+    let pair_id = |end: &Vec<usize>, l: usize, r: usize| -> Option<u32> { table.get(&word[l..end[r]]).copied() };
+    for i in 0..n - 1 {
+        if let Some(id) = pair_id(&end, i, i + 1) {
+            cand.insert((id, i));
+        }
+    }
+    while let Some(&(id, l)) = cand.iter().next() {
+        cand.remove(&(id, l));
+        debug_assert!(alive[l]);
+        let r = next_of(&end, l);
+        debug_assert!(r != none && alive[r]);
+        let p = prev[l];
+        let nx = next_of(&end, r);
+        // candidates that involve l or r as they were
+        if p != none {
+            if let Some(i) = pair_id(&end, p, l) {
+                cand.remove(&(i, p));
+            }
+        }
+        if nx != none {
+            if let Some(i) = pair_id(&end, r, nx) {
+                cand.remove(&(i, r));
+            }
+        }
+        // merge r into l
+        end[l] = end[r];
+        alive[r] = false;
+        if nx != none {
+            prev[nx] = l;
+        }
+        if p != none {
+            if let Some(i) = pair_id(&end, p, l) {
+                cand.insert((i, p));
+            }
+        }
+        if nx != none {
+            if let Some(i) = pair_id(&end, l, nx) {
+                cand.insert((i, l));
+            }
+        }
+    }
+    let mut out = vec![];
+    let mut i = 0;
+    while i < n {
+        if end[i] - i == 1 {
+            out.push(word[i] as u32);
+        } else {
+            out.push(256 + table[&word[i..end[i]]]);
+        }
+        i = end[i];
+    }
+    out
+}
+
+pub fn self_test_bpe() -> Result<(), String> {
+    // deterministic pseudo-random words over {a,b,c} against tables with competing merges
+    let tables: Vec<Vec<&str>> = vec![
+        vec!["ab", "bc", "abc", "ca", "abca", "aa", "aaa", "aaaa"],
+        vec!["bc", "abc", "ab", "cab", "bb", "bbb", "abab"],
+        vec!["aa", "aaaa", "ab", "ba", "aba", "abaab"],
+    ];
+    let mut x: u64 = 0x9e3779b97f4a7c15;
+    for t in &tables {
+        let table: HashMap<Vec<u8>, u32> = t.iter().enumerate().map(|(i, e)| (e.as_bytes().to_vec(), i as u32)).collect();
+        for len in 0..60 {
+            for _ in 0..20 {
+                let mut w = vec![];
+                for _ in 0..len {
+                    x ^= x << 13;
+                    x ^= x >> 7;
+                    x ^= x << 17;
+                    w.push(b"abc"[(x % 3) as usize]);
+                }
+                let (slow, _) = naive_bpe_word(&w, &table);
+                let fast = fast_bpe_word(&w, &table);
+                if slow != fast {
+                    return Err(format!("fast_bpe_word disagrees with naive_bpe_word on {:?}: {fast:?} vs {slow:?}", String::from_utf8_lossy(&w)));
+                }
+            }
+        }
+    }
+    Ok(())
+}
+
 #[derive(Default, Debug, Clone)]
 pub struct BpeTrace {
     pub merges: usize,
